@@ -2,7 +2,7 @@
 and loop termination classification for the decode path."""
 from mirlite import callee, callee_res, ty_str, op_place
 from expr import show, walk, strip_ref
-from discharge import (CONTRACTED, INDEX, LEN_CALLS, Lin, canon, len_of, make_prover)
+from discharge import (CONTRACTED, INDEX, LEN_CALLS, SPLIT_AT, Lin, canon, len_of, make_prover)
 
 ITER_FINITE = ("core::ops::range::Range<", "core::slice::iter::Iter<", "core::iter::adapters::rev::Rev<core::ops::range::Range<",
                "std::collections::hash::set::IntoIter<", "alloc::vec::into_iter::IntoIter<", "core::slice::iter::IterMut<",
@@ -63,6 +63,9 @@ def suffix_of_param(pr, e, depth=0, visiting=None):
         return suffix_of_param(pr, e[1][2][0], depth + 1, visiting)
     if e[0] == "call" and e[1] in ("core::ops::deref::Deref::deref",):
         return suffix_of_param(pr, e[2][0], depth + 1, visiting)
+    # the second half of s.split_at(m) is s[m..]
+    if e[0] == "proj" and e[1][0] == "call" and e[1][1] in SPLIT_AT and tuple(e[2]) == ("1",):
+        return suffix_of_param(pr, e[1][2][0], depth + 1, visiting)
     return False
 
 
@@ -70,9 +73,25 @@ def ok_remainders(pr):
     """(bb, remainder expr | ('delegate', call expr)) for every Ok return of a decoder body."""
     b, vx = pr.b, pr.vx
     out = []
+    # locals whose value is handed to the return place by plain moves (`_0 = move tmp`, e.g. the result of an
+    # inlined helper): their definitions are result definitions too
+    result_locals = {0}
+    changed = True
+    while changed:
+        changed = False
+        for i in sorted(b.reachable(0)):
+            for st in b.blocks[i]["stmts"]:
+                if st["s"] == "assign" and st["p"]["l"] in result_locals and not st["p"]["p"] and st["rv"]["r"] == "use":
+                    p = op_place(st["rv"]["o"])
+                    if p is not None and not p["p"] and p["l"] not in result_locals and not (1 <= p["l"] <= vx.argc):
+                        result_locals.add(p["l"])
+                        changed = True
     for i in sorted(b.reachable(0)):
         for st in b.blocks[i]["stmts"]:
-            if st["s"] == "assign" and st["p"]["l"] == 0 and not st["p"]["p"]:
+            if st["s"] == "assign" and st["p"]["l"] in result_locals and not st["p"]["p"]:
+                if st["rv"]["r"] == "use" and op_place(st["rv"]["o"]) is not None and not op_place(st["rv"]["o"])["p"] and \
+                        op_place(st["rv"]["o"])["l"] in result_locals:
+                    continue
                 e = vx.rvalue(st["rv"], i)
                 if e[0] == "agg" and e[1] == "core::result::Result::Ok":
                     v = e[2][0]
@@ -81,7 +100,7 @@ def ok_remainders(pr):
                     else:
                         out.append((i, ("?", show(v)[:80])))
         t = b.blocks[i]["term"]
-        if t["t"] == "call" and t["dest"]["l"] == 0 and not t["dest"]["p"]:
+        if t["t"] == "call" and t["dest"]["l"] in result_locals and not t["dest"]["p"]:
             n = callee(t)
             if n in CONTRACTED:
                 out.append((i, ("delegate", vx.operand(t["args"][0], i))))
